@@ -10,7 +10,7 @@ TECH = {
             "exhaustive over 152 small shapes x all configurations; random search beyond (orders <= 6, sides <= 5, 10 dtypes, 5 memory layouts)"),
     "C02": ("Hypothesis differential testing: both tenalg backends vs. independent einsum-sublist / loop reference definitions",
             "orders 1-4, sides 1-4, real and complex values, all option combinations generated"),
-    "C03": ("Hypothesis: factorised tensors vs. independent dense reference contraction; rejection of corrupted factor sets",
+    "C03": ("Hypothesis: factorised tensors vs. independent dense reference contraction; rejection of corrupted factor sets; generated operation histories on wrapper objects (every view re-checked after every mutation)",
             "orders 2-5, sides 1-4, ranks 1-4, both tenalg backends"),
     "C04": ("Hypothesis metamorphic testing: dense(transform(x)) == dense(x) plus canonical-form predicates; factorised mode products vs. dense reference",
             "degenerate classes (zero / zero-mean columns, negative and zero weights, rank 1) forced by the generators"),
@@ -36,13 +36,13 @@ TECH = {
             "all algorithms accepting an init; budgets 0..3"),
     "C15": ("Hypothesis: deep byte snapshots of every argument before/after each call of a registry of public entry points; read-only re-run as a second detector",
             "registry of public entry points x argument kinds (views, lists, wrappers, option lists, exception exits)"),
-    "C16": ("Hypothesis rule-based state machine over call histories: memoised results per (entry, case, seed) must repeat bit for bit across global-RNG perturbations; global state untouched",
-            "histories of 10-30 steps over all seed-accepting entry points"),
-    "C17": ("Hypothesis rule-based state machine with harness-owned thread schedule against a reference model of per-thread backend stacks, for both managers",
-            "2-3 threads, up to 40 operations; operation-level interleavings only (no preemption inside one manager call)"),
+    "C16": ("Hypothesis-generated call histories (a whole operation sequence is one generated value and shrinks as one) interpreted against a reference model: memoised results per (entry, case, seed) must repeat bit for bit across global-RNG perturbations, identically seeded generators agree, persistent estimator objects re-fit identically, global RNG state untouched by seeded calls",
+            "histories of 10-30 steps over 64 seed-accepting entry points incl. class wrappers and masked randomized-SVD paths"),
+    "C17": ("Hypothesis-generated operation histories with a harness-owned thread schedule (the generated order is the interleaving) interpreted against a reference model of per-thread selections over a shared default, for both managers; plus a free-running stress run with a 1 microsecond switch interval",
+            "3 threads, up to 40 operations; operation-level interleavings only (no preemption inside one manager call is enumerated)"),
     "C18": ("Hypothesis: dtype of every array reachable from the result equals the input dtype over a registry of entry points at float32 / float64 / complex128",
             "registry shared with C15"),
-    "C19": ("Hypothesis: predictions vs. independent contraction with the exposed weights; PLSR metamorphic relations (shift, sample permutation)",
+    "C19": ("Hypothesis: predictions vs. independent contraction with the exposed weights; PLSR metamorphic relations (shift, sample permutation); fit / re-fit / predict histories on one estimator object; memory layouts and integer inputs",
             "4-15 samples, orders 2-4, ranks 1-3"),
     "C20": ("Hypothesis: congruence vs. brute force over all permutations; invariance under permutation / rescaling; metric definitions",
             "ranks 1-6 (R! enumeration), 1-3 modes"),
